@@ -19,11 +19,12 @@
    * C04_every_answer_during_a_build (Proofs/ViewX*.v): the stronger invariant XInv (counting
      law of BuildDirs relative to the live targets) holds in EVERY world reachable by running
      any program - success and failure paths of build_file, failing _make_dirs, _make_room,
-     subbuild - so every query asked at any point of a fault-free build answers like POSIX on
-     the view.  Proved unconditionally when the previous cache holds no operation records
-     (first builds); for arbitrary previous caches relative to two statements about cache
-     hits (hit_statement / sbhit_statement in ViewXC04.v: adoption of a recorded subtree) that
-     are not proved yet;
+     subbuild, and cache hits (validation, adoption of a recorded subtree, registration:
+     ViewH*.v, ViewR*.v) - so every query asked at any point of a fault-free build answers like
+     POSIX on the view, for every well-formed previous cache (WfCache: successful file records
+     carry a comparison result, recorded targets have creatable names; holds of the empty
+     cache, is kept for the new cache along every run and survives the write/read cycle:
+     ViewR6-R8.v);
    * C04_overlay_answers: during the validation of cached results (overlay of created files)
      exists / is_file / is_dir / list_dir answer like POSIX on the overlay tree (walk, get_size,
      read against an overlay: not proved).
@@ -37,11 +38,12 @@ From FB.Model Require Import Types Monad CreatedFiles BuildDirs SimpleOps Builde
 From FB.Spec Require Import Ref.
 From FB.Model Require Import Build.
 From FB.Spec Require Import Prog.
-From FB.Model Require Import Run.
-From FB.Proofs Require Import ReplayLaws ViewDefs ViewLemmas ViewScan ViewQueries ViewAnswers ViewInit ViewClean ViewXDefs ViewXOld ViewXRun ViewXSetup ViewXReach ViewOverlay ViewOverlay2 ViewXRun.
+From FB.Model Require Import Run Frame.
+From FB.Proofs Require Import ReplayLaws ViewDefs ViewLemmas ViewScan ViewQueries ViewAnswers ViewInit ViewClean ViewXDefs ViewXOld ViewXRun ViewXSetup ViewXReach ViewOverlay ViewOverlay2 ViewR2 ViewR3 ViewR9.
 (* T1g: Model/BuildDirs.v and Model/CreatedFiles.v are equal to the translation of build_dirs.py / created_files.py
    (Gen/BookGen.v, regenerated on every run); a change of those sources that the model does not follow breaks this import *)
 From FB.Proofs Require BookGenLaws.
+From FB.Proofs Require ExecGenLaws.   (* T1g: the model routines are equal to the translation of the source (Gen/ExecGen.v) *)
 Import ListNotations.
 Open Scope m_scope.
 
@@ -91,6 +93,16 @@ Theorem C04_every_answer_during_a_build : forall w0 cachefile old nm vers pr sub
   (forall p td, q = QWalk p td -> vdir wq p = true -> maxlen (w_fs wq) < walk_fuel + List.length p) ->
   BInv wq /\ yields (exec_query q None) wq (to_res (spec_answer (view_fs wq) q)).
 Proof. exact reachable_answers_view. Qed.
+
+Theorem C04_every_answer_during_any_build : forall w0 cachefile old nm vers pr subs q wq,
+  fs_wf (w_fs w0) -> old_ok old cachefile -> WfCache old -> w_faults w0 = [] ->
+  isdir (w_fs w0) cachefile = false -> maxlen (w_fs w0) < walk_fuel ->
+  AllTargets tgtP pr ->
+  AskAt pr None subs (start_world w0 cachefile old nm vers) q wq ->
+  path_ok (spec_query_path q) = true ->
+  (forall p c, q <> QRead p c) ->
+  BInv wq /\ yields (exec_query q None) wq (to_res (spec_answer (view_fs wq) q)).
+Proof. exact reachable_answers_view_all. Qed.
 
 Theorem C04_overlay_answers : forall w c q, BInv w -> CInv w c ->
   pok w (spec_query_path q) ->
